@@ -66,10 +66,35 @@ func (w *World) opRootCheck(op *Op) {
 		ps = append(ps, p)
 	}
 	// 1. unknown node format
-	for _, f := range []string{"v9.9unknown", "V1MARSHALER", "binary"} {
+	for _, f := range []string{"v9.9unknown", "V1MARSHALER", "binary", "v1.1.6binary", "v1.1.12binary", "v1.1.4binary", "v1.1.5binary2", "v1.1.5", "v2marshaler", "v1marshaler ", "v1.1.5Binary"} {
 		r := base
 		r.NodeFormat = f
 		add(rootPerturb{name: "unknown-format", root: r, cacheOK: true})
+	}
+	if top != "" && w.decodable() {
+		// 1b. a known format name (or none, which means v1marshaler) that is not the one the
+		// stored bytes are in: undecodable, by the independent decoder of the named format
+		for _, f := range []string{FmtBinary, FmtMarshaler, ""} {
+			if f == fm {
+				continue
+			}
+			as := f
+			if as == "" {
+				as = FmtMarshaler
+			}
+			if as == fm {
+				continue
+			}
+			if _, err := DecodeNode(as, topBytes); err != nil {
+				r := base
+				r.NodeFormat = f
+				name := "format-name-of-the-other-format"
+				if f == "" {
+					name = "no-format-name-for-binary-nodes"
+				}
+				add(rootPerturb{name: name, root: r})
+			}
+		}
 	}
 	if top != "" {
 		// 2. top node lost / load error
@@ -98,6 +123,37 @@ func (w *World) opRootCheck(op *Op) {
 				if _, err := DecodeNode(fm, topBytes[:c]); err != nil {
 					putBytes("top-node-truncated", append([]byte(nil), topBytes[:c]...))
 					cuts++
+				}
+			}
+			if fm == FmtBinary && dn != nil {
+				// cuts exactly on the structural boundaries: after the key section, after the value
+				// section, after the link count, after each of the first links
+				uvl := func(v int) int { return len(binary.AppendUvarint(nil, uint64(v))) }
+				off := uvl(len(dn.Keys))
+				for _, k := range dn.Keys {
+					off += uvl(len(k)) + len(k)
+				}
+				bounds := []int{off}
+				off += uvl(len(dn.Vals))
+				for _, v := range dn.Vals {
+					off += uvl(len(v)) + len(v)
+				}
+				bounds = append(bounds, off)
+				off += uvl(len(dn.Links))
+				bounds = append(bounds, off)
+				for i, l := range dn.Links {
+					if i >= 2 {
+						break
+					}
+					off += uvl(len(l)) + len(l)
+					bounds = append(bounds, off)
+				}
+				for _, c := range bounds {
+					if c > 0 && c < len(topBytes) {
+						if _, err := DecodeNode(fm, topBytes[:c]); err != nil {
+							putBytes("top-node-truncated-at-section-boundary", append([]byte(nil), topBytes[:c]...))
+						}
+					}
 				}
 			}
 			if fm == FmtBinary {
@@ -192,6 +248,9 @@ func (w *World) opRootCheck(op *Op) {
 				}
 				// 5. loader KeyCompare reversed / constant
 				baseCmp := mast.DefaultKeyCompare(w.cfg.MarshalFn())
+				if w.cb != nil && w.cb.KeyCompare != nil {
+					baseCmp = w.cb.KeyCompare // the order this tree was built under
+				}
 				add(rootPerturb{name: "loader-keycompare-reversed", root: base, cacheOK: true, cmp: func(a, b interface{}) (int, error) {
 					c, err := baseCmp(a, b)
 					return -c, err
